@@ -6,6 +6,7 @@ package props
 
 import (
 	"fmt"
+	"github.com/vipnode/vipnode/v2/ethnode"
 	"math/big"
 	"strings"
 	"testing"
@@ -284,6 +285,23 @@ func (b *billing) doUpdate(i int, reported []string, steerDelta *int) {
 		if bal, err := s.bal.GetNodeBalance(store.NodeID(s.agents[k].id.nodeID)); err == nil {
 			before[s.agents[k].id.nodeID] = new(big.Int).Set(&bal.Credit)
 		}
+	}
+	if steerDelta == nil && !s.cfg.NoManager && rapid.IntRange(0, 11).Draw(rt, "blockNumberProviderFails") == 0 {
+		// The pool command gives the pool a block-number provider (a scan of the store); this keep-alive finds it
+		// failing. The keep-alive fails - and a failed keep-alive moves no credit. (Observed contract: the check-in
+		// and the reported peers are recorded before the provider is asked; the stretch is not billed later either.)
+		s.pool.BlockNumberProvider = func(ethnode.NetworkID) (uint64, error) { return 0, errScripted }
+		s.model.cfg.NoManager = true
+		s.model.update(id, reported, block)
+		s.model.cfg.NoManager = false
+		_, err := s.update(i, reported, block, enodeForm, viaRPC)
+		s.pool.BlockNumberProvider = nil
+		b.logf("update %s reports %v while the block-number provider fails -> err=%v", nodeName(id), names(reported), err)
+		if classifyErr(err).Kind == "verify" {
+			b.fail("correctly signed keep-alive refused: %v", err)
+		}
+		b.classes["provider-failed"] = true
+		return // (checkState after the operation compares every balance with the model: nothing was billed)
 	}
 	seq0 := nextSeq()
 	e := s.model.update(id, reported, block)
